@@ -186,6 +186,9 @@ func TestC04(t *testing.T) {
 	forCases(n, 41, "s", func(i int, r *rng, id string) {
 		bubble(t, "C04", id, func() { c04Healthy(r, id) })
 	})
+	// members on other ports than the node's own (several agents on one host): a member learned by gossip
+	// keeps the port it advertised - that is where it is probed
+	forCases(200, 45, "a", func(i int, r *rng, id string) { alivePortLeg("C04", r, id) })
 }
 
 // c04Udp: a healthy burst over the stock UDP transport (real loopback sockets): K alive messages about K
